@@ -164,6 +164,18 @@ func (c04) Run(t *tape.Tape, tier Tier) *Result {
 				}
 			}
 		}
+		// (b') ... and the verbose rendering of every opaque layer names the
+		// origin's type (not, e.g., the family it travels under)
+		if verbose := obs.Fmt("%+v", d.Err); !obs.IsPanic(verbose) {
+			for i := range got {
+				if strings.Contains(got[i].GoType, "errbase.opaque") && i < len(want) && want[i].TypeName != "" &&
+					!strings.Contains(verbose, "type name: "+want[i].TypeName+"\n") {
+					res.add(Violation{Prop: "C04", Oracle: "typename-in-verbose-at-unknowing", Culprit: typeOfLayer(want[i]),
+						Expected: "a line 'type name: " + want[i].TypeName + "'", Observed: short(verbose), Where: where})
+					break
+				}
+			}
+		}
 		// (c) re-encoding
 		in, err1 := world.ParseWire(d.Msg.Data)
 		out, err2 := world.ParseWire(d.ReData)
